@@ -275,9 +275,10 @@ CHECKS = {
  },
  "C18": {
   "title": "Banned directives",
-  "harnesses": [doc("VerifH_Banned", {"K": 2}, {"K": 3}, stubsets=["location", "vfs-files"])],
-  "assumptions": DOC_ASSUME + ["banned sets are singletons over the kinds of the menu (INFO, Title, SERVER, URL, GET, POST, 200, TYPE, TAG, MACRO, PASTE)", "the run with the option is compared with the run without it on the same symbolic document"],
-  "not_decided": DOC_NOT + ["banned INCLUDE with the virtual file system (the scan-time check is shared with all other kinds)", "larger banned sets"],
+  "harnesses": [doc("VerifH_Banned", {"K": 2, "PAIRS": 0}, {"K": 3, "PAIRS": 0}, stubsets=["location", "vfs-files"]),
+                doc("VerifH_Banned", {"K": 1, "PAIRS": 1}, {"K": 2, "PAIRS": 1}, stubsets=["location", "vfs-files"])],
+  "assumptions": DOC_ASSUME + ["banned sets are singletons and pairs over the kinds of the menu (INFO, Title, SERVER, URL, GET, POST, 200, TYPE, TAG, MACRO, PASTE, INCLUDE) and ENUM, which occurs only as the first directive of the included file inc.jst (virtual file system)", "the run with the option is compared with the run without it on the same symbolic document"],
+  "not_decided": DOC_NOT + ["banned sets of more than two kinds", "banned kinds deeper inside included files"],
  },
  "C19": {
   "title": "Tags",
